@@ -82,6 +82,7 @@ pub open spec fn in_kind(op: TimeRequest, r: TimeResponse) -> bool {
 }
 
 /// futures::channel::oneshot::Canceled
+#[derive(PartialEq, Eq, Structural, Clone, Copy)]
 pub struct Canceled;
 impl core::fmt::Debug for Canceled {
     #[verifier::external_body]
@@ -125,16 +126,18 @@ impl Ctx {
     { unimplemented!() }
 }
 pub enum Sel { Shell(TimeResponse), Cleared(Result<TimerId, Canceled>) }
+/// which arm a biased select polls first (None: plain `select!`, random order)
+pub enum Bias { ShellFirst, ClearFirst, Unbiased }
 // ASSUMED (futures select_biased! over the fused request future and the clear receiver, awaited): polling
 // it sends the request; which arm completes is the environment's choice, except that - for select_biased!
 // only; plain select! polls in a random order - an answer already waiting wins (bias) and the clear arm completes only if the app cleared the handle (a dropped handle
 // terminates the fused receiver and is never selected)
 #[verifier::external_body]
-pub fn select2(Tracked(w): Tracked<&mut TW>, biased: bool, ctx: &Ctx, op: TimeRequest, receiver: &mut ClearReceiver) -> (r: Sel)
+pub fn select2(Tracked(w): Tracked<&mut TW>, bias: Bias, ctx: &Ctx, op: TimeRequest, receiver: &mut ClearReceiver) -> (r: Sel)
     ensures
         final(w).emitted == old(w).emitted.push(op),
         r matches Sel::Shell(resp) ==> in_kind(op, resp) && *final(w) == (TW { emitted: final(w).emitted, answers: old(w).answers.push(resp), ..*old(w) }),
-        r matches Sel::Cleared(c) ==> c == Ok::<TimerId, Canceled>(old(w).handle_id) && old(w).cleared_pending && (biased ==> !old(w).answer_waiting) && *final(w) == (TW { emitted: final(w).emitted, ..*old(w) }),
+        r matches Sel::Cleared(c) ==> c == Ok::<TimerId, Canceled>(old(w).handle_id) && old(w).cleared_pending && (bias is ShellFirst ==> !old(w).answer_waiting) && *final(w) == (TW { emitted: final(w).emitted, ..*old(w) }),
 { unimplemented!() }
 
 // ------------------------------------------------------------------ notify_after
@@ -152,9 +155,10 @@ pub fn select2(Tracked(w): Tracked<&mut TW>, biased: bool, ctx: &Ctx, op: TimeRe
         r is Cleared ==> old(w).cleared_early || old(w).cleared_pending, // [C18/notify_after/cleared-only-if-the-app-cleared-it]
         r is Cleared && !old(w).cleared_early ==> final(w).emitted == old(w).emitted.push(TimeRequest::NotifyAfter { id: timer_id, duration: wire_duration_s(duration) }).push(TimeRequest::Clear { id: timer_id }) && final(w).answers == old(w).answers.push(TimeResponse::Cleared { id: timer_id }), // [C18/notify_after/cleared-while-pending-sends-exactly-one-clear-request-for-its-id-and-reports-cleared-once-answered]
         !old(w).cleared_early && old(w).answer_waiting ==> r is Completed, // [C18/notify_after/an-answer-already-waiting-wins-over-a-clear]
-//@rule X20.select-biased * s~select_biased!\s*\{\s*(\w+)\s*=\s*(\w+)\.request_from_shell\(\s*((?:.|\n)*?)\s*\)\.fuse\(\)\s*=>\s*\{~match select2(Tracked(w), true, &\2, \3, &mut receiver) { Sel::Shell(\1) => {~
-//@rule X20.select-unbiased * s~select!\s*\{\s*(\w+)\s*=\s*(\w+)\.request_from_shell\(\s*((?:.|\n)*?)\s*\)\.fuse\(\)\s*=>\s*\{~match select2(Tracked(w), false, &\2, \3, &mut receiver) { Sel::Shell(\1) => {~
-//@rule X20.select 1 s~(\w+)\s*=\s*receiver\s*=>\s*\{~Sel::Cleared(\1) => {~
+//@rule X20.select-clear-first * s~select_biased!\s*\{(?:\s*//[^\n]*)*(\n[ \t]*)(\w+)\s*=\s*receiver\s*=>\s*\{((?:.|\n)*?)\1\}\s*,?\s*(\w+)\s*=\s*(\w+)\.request_from_shell\(\s*((?:.|\n)*?)\s*\)\.fuse\(\)\s*=>\s*\{~match select2(Tracked(w), Bias::ClearFirst, &\5, \6, &mut receiver) {\1Sel::Cleared(\2) => {\3\1}\1Sel::Shell(\4) => {~
+//@rule X20.select-biased * s~select_biased!\s*\{(?:\s*//[^\n]*)*\s*(\w+)\s*=\s*(\w+)\.request_from_shell\(\s*((?:.|\n)*?)\s*\)\.fuse\(\)\s*=>\s*\{~match select2(Tracked(w), Bias::ShellFirst, &\2, \3, &mut receiver) { Sel::Shell(\1) => {~
+//@rule X20.select-unbiased * s~select!\s*\{(?:\s*//[^\n]*)*\s*(\w+)\s*=\s*(\w+)\.request_from_shell\(\s*((?:.|\n)*?)\s*\)\.fuse\(\)\s*=>\s*\{~match select2(Tracked(w), Bias::Unbiased, &\2, \3, &mut receiver) { Sel::Shell(\1) => {~
+//@rule X20.select * s~(\w+)\s*=\s*receiver\s*=>\s*\{~Sel::Cleared(\1) => {~
 //@rule X17.await * s/\s*\.await\b//
 //@rule X6.world * s/receiver\.try_recv\(\)/receiver.try_recv(Tracked(w))/
 //@rule X6.world * s/(\w+)\.request_from_shell\(TimeRequest::Clear/\1.request_from_shell(Tracked(w), TimeRequest::Clear/
@@ -179,9 +183,10 @@ pub fn select2(Tracked(w): Tracked<&mut TW>, biased: bool, ctx: &Ctx, op: TimeRe
         r is Cleared && !old(w).cleared_early ==> final(w).emitted == old(w).emitted.push(TimeRequest::NotifyAt { id: timer_id, instant: wire_instant_s(system_time) }).push(TimeRequest::Clear { id: timer_id }) && final(w).answers == old(w).answers.push(TimeResponse::Cleared { id: timer_id }), // [C18/notify_at/cleared-while-pending-sends-exactly-one-clear-request-for-its-id-and-reports-cleared-once-answered]
         !old(w).cleared_early && old(w).answer_waiting ==> r is Completed, // [C18/notify_at/an-answer-already-waiting-wins-over-a-clear]
 //@rule X17.async-block 1 s/async move \{/{/
-//@rule X20.select-biased * s~select_biased!\s*\{\s*(\w+)\s*=\s*(\w+)\.request_from_shell\(\s*((?:.|\n)*?)\s*\)\.fuse\(\)\s*=>\s*\{~match select2(Tracked(w), true, &\2, \3, &mut receiver) { Sel::Shell(\1) => {~
-//@rule X20.select-unbiased * s~select!\s*\{\s*(\w+)\s*=\s*(\w+)\.request_from_shell\(\s*((?:.|\n)*?)\s*\)\.fuse\(\)\s*=>\s*\{~match select2(Tracked(w), false, &\2, \3, &mut receiver) { Sel::Shell(\1) => {~
-//@rule X20.select 1 s~(\w+)\s*=\s*receiver\s*=>\s*\{~Sel::Cleared(\1) => {~
+//@rule X20.select-clear-first * s~select_biased!\s*\{(?:\s*//[^\n]*)*(\n[ \t]*)(\w+)\s*=\s*receiver\s*=>\s*\{((?:.|\n)*?)\1\}\s*,?\s*(\w+)\s*=\s*(\w+)\.request_from_shell\(\s*((?:.|\n)*?)\s*\)\.fuse\(\)\s*=>\s*\{~match select2(Tracked(w), Bias::ClearFirst, &\5, \6, &mut receiver) {\1Sel::Cleared(\2) => {\3\1}\1Sel::Shell(\4) => {~
+//@rule X20.select-biased * s~select_biased!\s*\{(?:\s*//[^\n]*)*\s*(\w+)\s*=\s*(\w+)\.request_from_shell\(\s*((?:.|\n)*?)\s*\)\.fuse\(\)\s*=>\s*\{~match select2(Tracked(w), Bias::ShellFirst, &\2, \3, &mut receiver) { Sel::Shell(\1) => {~
+//@rule X20.select-unbiased * s~select!\s*\{(?:\s*//[^\n]*)*\s*(\w+)\s*=\s*(\w+)\.request_from_shell\(\s*((?:.|\n)*?)\s*\)\.fuse\(\)\s*=>\s*\{~match select2(Tracked(w), Bias::Unbiased, &\2, \3, &mut receiver) { Sel::Shell(\1) => {~
+//@rule X20.select * s~(\w+)\s*=\s*receiver\s*=>\s*\{~Sel::Cleared(\1) => {~
 //@rule X17.await * s/\s*\.await\b//
 //@rule X6.world * s/receiver\.try_recv\(\)/receiver.try_recv(Tracked(w))/
 //@rule X6.world * s/(\w+)\.request_from_shell\(TimeRequest::Clear/\1.request_from_shell(Tracked(w), TimeRequest::Clear/
